@@ -221,36 +221,18 @@ class NetworkGraph(AbstractBaseIR):
                 if not scalar_edges:
                     continue
 
-                delays, spreads, nodes, add_delay, n_slots = self._collect_delays_from_edges(scalar_edges,
-                                                                                            dde_approx=dde_approx)
+                if not dde_approx:
+                    # edges with a distributed delay (gamma kernel, realised as a chain of ODEs) and edges with a
+                    # discrete or no delay (ring buffer / history look-up) get delay buffers of their own
+                    with_spread = [edge for edge in scalar_edges if self._has_spread(edge)]
+                    without = [edge for edge in scalar_edges if edge not in with_spread]
+                    groups = [(without, ""), (with_spread, "_g")] if with_spread and without else [(scalar_edges, "")]
+                else:
+                    groups = [(scalar_edges, "")]
 
-                # add synaptic buffer to output variables with delay
-                if add_delay:
-                    # Clear delay fields from edges so _generate_edge_equation ignores them.
-                    # Kept here (not inside _collect_delays_from_edges) so that method is pure.
-                    source_indices = [self.edges[edge]['source_idx'] for edge in scalar_edges]
-                    for s, t, e in scalar_edges:
-                        self.edges[s, t, e]['source_idx'] = []
-                        self.edges[s, t, e]['delay'] = None
-
-                    if vectorized:
-                        self._add_edge_buffer(node_name, op_name, var_name, edges=scalar_edges, delays=delays,
-                                              nodes=nodes, spreads=spreads, dde_approx=dde_approx)
-                    else:
-                        # TODO: sort edges into unique delay/spread combinations and only loop over those
-                        # (an edge holds several delays if it bundles parallel connections between the same variables)
-                        start = 0
-                        for i, (edge, node, n) in enumerate(zip(scalar_edges, nodes, n_slots)):
-                            edge_delays = delays[start:start + n]
-                            edge_spreads = spreads[start:start + n] if spreads else None
-                            start += n
-                            if not any(edge_delays):
-                                # undelayed edge: keeps reading the source variable itself
-                                self.edges[edge]['source_idx'] = source_indices[i]
-                                continue
-                            self._add_edge_buffer(node_name, op_name, var_name, edges=[edge], delays=edge_delays,
-                                                  nodes=[node], spreads=edge_spreads, dde_approx=dde_approx,
-                                                  buffer_id=f"_out{i}")
+                for group_edges, group_id in groups:
+                    self._add_scalar_edge_delays(node_name, op_name, var_name, group_edges, vectorized=vectorized,
+                                                 dde_approx=dde_approx, buffer_id=group_id)
 
         # go through nodes again, and collect and process all inputs to each node variable
         ##################################################################################
@@ -271,6 +253,47 @@ class NetworkGraph(AbstractBaseIR):
 
                 # create the final equations for all edges that target the input variable
                 self._generate_edge_equation(tnode=node_name, top=op_name, tvar=var_name, inputs=data, **kwargs)
+
+    def _has_spread(self, edge: tuple) -> bool:
+        v = self.edges[edge].get('spread')
+        if v is None:
+            return False
+        return any(v_tmp for v_tmp in np.atleast_1d(v) if v_tmp is not None)
+
+    def _add_scalar_edge_delays(self, node_name: str, op_name: str, var_name: str, scalar_edges: list, vectorized: bool,
+                                dde_approx: int, buffer_id: str = "") -> None:
+        """Adds the delay buffers for (a group of) the scalar edges that leave the variable `var_name`."""
+
+        delays, spreads, nodes, add_delay, n_slots = self._collect_delays_from_edges(scalar_edges,
+                                                                                    dde_approx=dde_approx)
+
+        # add synaptic buffer to output variables with delay
+        if add_delay:
+            # Clear delay fields from edges so _generate_edge_equation ignores them.
+            # Kept here (not inside _collect_delays_from_edges) so that method is pure.
+            source_indices = [self.edges[edge]['source_idx'] for edge in scalar_edges]
+            for s, t, e in scalar_edges:
+                self.edges[s, t, e]['source_idx'] = []
+                self.edges[s, t, e]['delay'] = None
+
+            if vectorized:
+                self._add_edge_buffer(node_name, op_name, var_name, edges=scalar_edges, delays=delays,
+                                      nodes=nodes, spreads=spreads, dde_approx=dde_approx, buffer_id=buffer_id)
+            else:
+                # TODO: sort edges into unique delay/spread combinations and only loop over those
+                # (an edge holds several delays if it bundles parallel connections between the same variables)
+                start = 0
+                for i, (edge, node, n) in enumerate(zip(scalar_edges, nodes, n_slots)):
+                    edge_delays = delays[start:start + n]
+                    edge_spreads = spreads[start:start + n] if spreads else None
+                    start += n
+                    if not any(edge_delays):
+                        # undelayed edge: keeps reading the source variable itself
+                        self.edges[edge]['source_idx'] = source_indices[i]
+                        continue
+                    self._add_edge_buffer(node_name, op_name, var_name, edges=[edge], delays=edge_delays,
+                                          nodes=[node], spreads=edge_spreads, dde_approx=dde_approx,
+                                          buffer_id=f"{buffer_id}_out{i}")
 
     def _sort_edges(self, edges: List[tuple], attr: str, data_included: bool = False) -> dict:
         """Sorts edges according to the given edge attribute.
